@@ -133,6 +133,7 @@ type machine struct {
 	viol      *Violation
 	sc        *sched
 	inInit    bool
+	replayChoices bool
 	pools     map[*value][]value
 	wgs       map[*value]*int
 	syncMaps  map[*value]*omap
@@ -413,6 +414,35 @@ func (m *machine) choose(n int, what string) int {
 	return 0
 }
 
+// chooseRec is choose for engine-level nondeterminism (scheduler, select, map
+// order): the alternative taken is recorded on the tape as a "choice" entry and
+// read back from it when a tape is replayed concretely.
+func (m *machine) chooseRec(n int, tag string) int {
+	if n <= 1 {
+		return 0
+	}
+	if m.concrete {
+		k := 0
+		if !m.useRng && m.replayChoices {
+			for m.tapePos < len(m.tape) && m.tape[m.tapePos].Kind != "choice" {
+				m.abort("diverged", "tape: expected choice %s, found input %s", tag, m.tape[m.tapePos].Tag)
+			}
+			if m.tapePos < len(m.tape) {
+				k = int(m.tape[m.tapePos].Val)
+				m.tapePos++
+			}
+			if k >= n {
+				m.abort("diverged", "tape choice %s out of range", tag)
+			}
+		}
+		m.inputs = append(m.inputs, Input{Tag: tag, Kind: "choice", Val: uint64(k), Conc: true})
+		return k
+	}
+	k := m.choose(n, tag)
+	m.inputs = append(m.inputs, Input{Tag: tag, Kind: "choice", Val: uint64(k), Conc: true})
+	return k
+}
+
 const maxConcretise = 1024
 
 // concretise forks over all feasible values of t.
@@ -546,6 +576,15 @@ func (m *machine) concreteInput(tag, kind string, lo, hi uint64) uint64 {
 			v = lo + (r>>8)%(hi-lo+1)
 		}
 	} else {
+		if m.tapePos >= len(m.tape) {
+			m.abort("diverged", "tape exhausted at input %s", tag)
+		}
+		for m.tapePos < len(m.tape) && m.tape[m.tapePos].Kind == "choice" {
+			if m.replayChoices {
+				m.abort("diverged", "tape: expected input %s, found choice", tag)
+			}
+			m.tapePos++
+		}
 		if m.tapePos >= len(m.tape) {
 			m.abort("diverged", "tape exhausted at input %s", tag)
 		}
